@@ -573,36 +573,33 @@ func (fr *Frame) resolveName(name string, li *loopInfo) (TV, bool) {
 			}
 		}
 	}
-	// lifted locals through debug references: the candidate that dominates the header
-	var best ssa.Value
-	for _, v := range fr.debug[name] {
-		if _, ok := fr.vals[v]; !ok {
-			if _, isConst := v.(*ssa.Const); !isConst {
+	// lifted locals through debug references: the latest reference that dominates the loop header
+	if li != nil && !fr.inResolve {
+		for _, ins := range li.header.Instrs {
+			if _, isPhi := ins.(*ssa.Phi); isPhi {
 				continue
 			}
-		}
-		if li != nil {
-			if ins, ok := v.(ssa.Instruction); ok {
-				if li.body[ins.Block().Index] {
-					continue
-				}
-				if !ins.Block().Dominates(li.header) {
-					continue
-				}
-			}
-		}
-		if best == nil {
-			best = v
-		} else if best != v {
-			bi, ok1 := best.(ssa.Instruction)
-			vi, ok2 := v.(ssa.Instruction)
-			if ok1 && ok2 && bi.Block().Dominates(vi.Block()) {
-				best = v
-			}
+			fr.inResolve = true
+			tv, ok := fr.resolveNameAt(name, nil, ins)
+			fr.inResolve = false
+			return tv, ok
 		}
 	}
-	if best != nil {
-		return TV{fr.val(best), best.Type()}, true
+	if li == nil && !fr.inResolve {
+		// function exit: the latest reference dominating a return
+		for _, b := range fr.fn.Blocks {
+			if len(b.Instrs) == 0 {
+				continue
+			}
+			if ret, ok := b.Instrs[len(b.Instrs)-1].(*ssa.Return); ok {
+				fr.inResolve = true
+				tv, ok := fr.resolveNameAt(name, nil, ret)
+				fr.inResolve = false
+				if ok {
+					return tv, true
+				}
+			}
+		}
 	}
 	return TV{}, false
 }
